@@ -7,7 +7,7 @@ sys.path.insert(0, HERE)
 sys.path.insert(0, os.path.join(ROOT, "checks"))
 import props
 done = []
-for pid, cfg in sorted(props.PROPS.items()):
+for pid, cfg in sorted(props.PROPS.load_all().items()):
     for t in cfg.get("translators", []):
         if t in done: continue
         done.append(t)
